@@ -1,5 +1,5 @@
 """Texts of the claims made in MANIFEST.json, per property."""
-HOOK_COMMITS = ['78ce041', '65be38d', '036e882', '4be9113', '00cc1df', '2389819', 'c7d762f', '404f48f', '5da2c46', '7460cba']
+HOOK_COMMITS = ['78ce041', '65be38d', '036e882', '4be9113', '00cc1df', '2389819', 'c7d762f', '404f48f', '5da2c46', '7460cba','24853a3']
 
 NOT_APPLICABLE = {}
 
